@@ -22,6 +22,14 @@ def run(ctx):
         ctx.design("MC_LRU", ctx.cfg_variant("MC_LRU.cfg", dict(MaxOps=5 if thorough else 4, MaxBytes=mb)), label="capacity %d" % mb)
     for nc in CONTROLS:
         ctx.negative_control("MC_LRU", ctx.cfg_variant("MC_LRU.cfg", {nc: "TRUE", "MaxOps": 4}), label="neg:" + nc)
+    if thorough:
+        # optional extra (never the basis of a verdict): the byte bound as an inductive invariant, discharged by
+        # Apalache for 4 keys and symbolic capacity (0..120), overhead (0..8) and size range -- every history length
+        base = ["--init=IndInit", "--length=1"]
+        ctx.apalache("LRUInd", "LRUInd.cfg", ["--cinit=ConstInitOK", "--init=Init", "--inv=IndInv", "--length=0"], label="Init => IndInv")
+        ctx.apalache("LRUInd", "LRUInd.cfg", ["--cinit=ConstInitOK", "--init=IndInit", "--inv=IndInv", "--length=1"], label="IndInv /\\ Next => IndInv'")
+        ctx.apalache("LRUInd", "LRUInd.cfg", ["--cinit=ConstInitOK", "--init=IndInit", "--inv=SizeBound", "--length=0"], label="IndInv => SizeBound")
+        ctx.apalache("LRUInd", "LRUInd.cfg", ["--cinit=ConstInitBad", "--init=IndInit", "--inv=IndInv", "--length=1"], label="negative control (no eviction on overwrite)")
     rc, out, err = ctx.drive(["lru-sizes"])
     if rc != 0:
         raise Broken("lru-sizes failed " + err)
@@ -29,7 +37,7 @@ def run(ctx):
     amb_trace = os.path.join(ctx.work, "lru_amb.ndjson")
     namb = 0
     open(amb_trace, "w").close()
-    for mb, ops in ([(0, 4), (60, 5), (10000, 5), (9000, 5), (1 << 20, 5)] if thorough else [(0, 3), (60, 4), (10000, 4), (1 << 20, 4)]):
+    for mb, ops in ([(0, 4), (60, 5), (10000, 5), (1 << 20, 5)] if thorough else [(0, 3), (60, 4), (10000, 4), (1 << 20, 4)]):
         cfg = ctx.cfg_variant("MC_GenLRU.cfg", dict(SzZero=sz[0], SzSmall=sz[1], SzMed=sz[2], SzBig=sz[3], MaxBytes=mb, MaxOps=ops))
         path = os.path.join(ctx.work, "genlru.ndjson")
         r = ctx.gen_to_file("MC_GenLRU", cfg, path, workers=8, label="gen-lru max=%d" % mb)
